@@ -20,6 +20,10 @@ GRAMMARS = [
     ('opt_star', 'named< 0, opt< named< 1, %s > >, star< %s > >' % (S0, S1), {'evmax': 36}),
     ('apply', 'named< 0, %s, apply< pa< 0 >, pab< 1 > >, %s >' % (S0, S1), {}),
     ('apply0', 'named< 0, %s, apply0< pab< 0 >, pa< 1 > > >' % S0, {}),
+    # if_apply / apply at top level and directly under opt<> / sor<>: no enclosing guard repairs the cursor after a veto
+    ('if_apply_top', 'if_apply< named< 1, %s, %s >, pa< 0 >, pab< 1 > >' % (S0, S1), {}),
+    ('if_apply_opt', 'named< 0, opt< if_apply< named< 1, %s >, pab< 0 > > >, %s >' % (S0, S1), {}),
+    ('if_apply_sor', 'named< 0, sor< if_apply< named< 1, %s >, pab< 0 > >, %s > >' % (S0, S1), {}),
     ('if_apply', 'named< 0, if_apply< named< 1, %s, %s >, pa< 0 >, pab< 1 > >, %s >' % (S0, S1, S2), {}),
 ]
 
@@ -32,4 +36,10 @@ def plan(ctx):
     else:
         qs = evplan.queries(ctx, 'c04', GRAMMARS, ['void', 'bool', 'bool_nu', 'void0', 'bool0'], N, modes=('ar', 'ao', 'nr', 'no'))
         qs += evplan.queries(ctx, 'c04', GRAMMARS, ['void', 'bool', 'bool0'], N, modes=('ar', 'ao'), lazy=True)
+    # enable_action / disable_action (switches attached through the action class): the scoping harness of C13
+    from props import C13
+    for q in C13.plan(ctx):
+        if q.name.split('/')[0] in ('enable_disable', 'disable_in_at'):
+            q.name = 'action_class/' + q.name
+            qs.append(q)
     return qs
